@@ -53,7 +53,12 @@ func typical(t reflect.Type, n int) (reflect.Value, bool) {
 	switch t.Kind() {
 	case reflect.String:
 		v := reflect.New(t).Elem()
-		v.SetString(fmt.Sprintf("s%d", n))
+		if n == 2 {
+			// characters that JSON encoders may or may not escape
+			v.SetString("a&b<c>d\u2028e\"f'g\\h")
+		} else {
+			v.SetString(fmt.Sprintf("s%d", n))
+		}
 		return v, true
 	case reflect.Bool:
 		v := reflect.New(t).Elem()
@@ -161,7 +166,11 @@ func Mutations(t reflect.Type, maxDepth int) []Mutation {
 	}
 	walk = func(t reflect.Type, path string, get func(root reflect.Value) reflect.Value, depth int) {
 		if isLeafType(t) {
-			for n := 0; n < 2; n++ {
+			variants := 2
+			if t.Kind() == reflect.String {
+				variants = 3
+			}
+			for n := 0; n < variants; n++ {
 				n := n
 				tv, ok := typical(t, n)
 				if !ok {
